@@ -227,15 +227,15 @@ fn c14_write_zeros_model() {
     // the model is only ever reached with small n in the harnesses that use it (padding of the
     // fields of a plain poll message); large runs go through the real loop in c14_ef_size
     let n: usize = kani::any();
-    kani::assume(n <= 128);
+    kani::assume(n <= 40);
     let room: usize = kani::any();
-    kani::assume(room <= 160);
+    kani::assume(room <= 48);
     let start: usize = kani::any();
     kani::assume(start <= room);
     let j: usize = kani::any();
-    kani::assume(j < 160);
-    let mut a = [0xEEu8; 161];
-    let mut b = [0xEEu8; 161];
+    kani::assume(j < 48);
+    let mut a = [0xEEu8; 49];
+    let mut b = [0xEEu8; 49];
     let (ra, pa) = {
         let mut w = Cursor::new(&mut a[..room]);
         w.set_position(start as u64);
@@ -255,7 +255,7 @@ fn c14_write_zeros_model() {
         assert!(a[j] == b[j], "same bytes");
         assert!(a[j] == if j >= start && j < start + n { 0 } else { 0xEE }, "exactly n zero bytes");
     }
-    kani::cover!(ra && n == 128 && start == 7, "largest run");
+    kani::cover!(ra && n == 40 && start == 7, "largest run (two chunks)");
     kani::cover!(!ra && n > 32, "does not fit");
     kani::cover!(ra && n == 0, "nothing to write");
 }
